@@ -57,6 +57,7 @@ def main() -> None:
 
     schemas = w["schemas"]
     trees = {}        # schema id -> kept tree object
+    from_file = set() # schema ids whose kept tree was parsed from a scratch FILE (its nodes carry that path)
     encoders = {}     # schema id -> kept PackedEncoder
     obs = []
     log = []
@@ -78,6 +79,7 @@ def main() -> None:
                     r = P.get_fcp(str(d / "main.fcp"))
                     if r.is_ok():
                         trees[op[1]] = r.unwrap()
+                        from_file.add(op[1])
                 elif kind == "parse_broken":
                     text = schemas[op[1]]
                     cut = op[2] % max(len(text), 1)
@@ -110,17 +112,28 @@ def main() -> None:
                 elif kind == "generate":
                     _, g, sid, reuse = op
                     reused = bool(reuse and sid in trees)
+                    if g == "reflection" and sid in from_file:
+                        # the reflection record contains the source file name of every node: a tree parsed from a
+                        # scratch path is a different input, not a nondeterminism; compare like with like
+                        reused = False
                     if reused:
                         t = trees[sid]
                     else:
                         t = P.get_fcp_from_string(schemas[sid], E.Logger({})).unwrap()
                         trees[sid] = t
+                        from_file.discard(sid)
                     out = work / f"out{oi}"
                     buf = io.StringIO()
                     rec = {"op": oi, "generator": g, "schema": sid, "reused": reused}
                     try:
                         with contextlib.redirect_stdout(buf):
-                            items = gens[g].Generator().generate(t, {"output": out, "templates": {}, "skels": {}})
+                            if g == "reflection":
+                                # the binary reflection the `fcp encode` command writes for this schema
+                                from fcp.reflection import get_reflection_schema
+                                blob = bytes(SER.encode(get_reflection_schema().unwrap(), "Fcp", t.reflection()))
+                                items = [{"type": "file", "path": out / "reflection.bin", "contents": blob.hex()}]
+                            else:
+                                items = gens[g].Generator().generate(t, {"output": out, "templates": {}, "skels": {}})
                         m = {}
                         for it in items:
                             if it.get("type") == "file":
